@@ -467,6 +467,62 @@ def credentials(ctx, seed):
     return fails
 
 
+def forgeries(ctx, seed):
+    """A peer that holds NO credential of the configured identity presents guesses instead of a valid AUTH payload
+    (the empty shared secret, a zero key, the identity as the key, an empty RSA signature, an undefined method
+    carrying a PSK-style value): the victim - responder or initiator, configured for RSA only or for PSK only - must
+    never establish nor install anything."""
+    from ikesa import IkeSa
+    from message import PayloadAUTH
+    priv_a, pub_a, priv_b, pub_b = rsa_keys()
+    fails = []
+
+    def psk_with(key):
+        return lambda sa, octets: sa._generate_psk_auth_payload(key, octets)
+    guesses = [('psk-empty-key', psk_with(b'')), ('psk-zero-key', psk_with(b'\0')),
+               ('psk-identity-as-key', psk_with(b'alice@openikev2')),
+               ('rsa-empty-signature', lambda sa, octets: PayloadAUTH(PayloadAUTH.Method.RSA, b'')),
+               ('rsa-prf-value-as-signature', lambda sa, octets: PayloadAUTH(PayloadAUTH.Method.RSA,
+                                                                          sa.my_crypto.prf.prf(b'', octets))),
+               ('method-3-with-psk-value', lambda sa, octets: PayloadAUTH(3, sa.my_crypto.prf.prf(
+                   sa.my_crypto.prf.prf(b'', b'Key Pad for IKEv2'), octets)))]
+    for victim in ('B', 'A'):
+        for cred in ('rsa-only', 'psk-only'):
+            def edit(ca, cb, victim=victim, cred=cred):
+                vc = cb if victim == 'B' else ca
+                peer_id = 'alice@openikev2' if victim == 'B' else 'bob@openikev2'
+                peer_pub = pub_a if victim == 'B' else pub_b
+                vc['conn']['peer_auth'] = ({'id': peer_id, 'pubkey': peer_pub} if cred == 'rsa-only'
+                                           else {'id': peer_id, 'psk': 'a-secret-the-attacker-does-not-know'})
+            for gname, guess in guesses:
+                orig = IkeSa._generate_auth_payload
+
+                def forged(self_, message_data, nonce, payload_id, sk_p, orig=orig, guess=guess, victim=victim):
+                    attacker_is_initiator = (victim == 'B')
+                    if bool(self_.is_initiator) == attacker_is_initiator:
+                        octets = message_data + nonce + self_.my_crypto.prf.prf(sk_p, payload_id.to_bytes())
+                        return guess(self_, octets)
+                    return orig(self_, message_data, nonce, payload_id, sk_p)
+                with mock.patch.object(IkeSa, '_generate_auth_payload', forged):
+                    try:
+                        res = run_handshake(seed, {}, edit)
+                    except LoopEscape as ex:
+                        fails.append(Failure('property', 'loop:escaped-exception', repr(ex.exc),
+                                             {'kind': 'forgery', 'seed': seed}))
+                        continue
+                ea, eb = established(res)
+                est, newsa = (eb, res['b_newsa']) if victim == 'B' else (ea, res['a_newsa'])
+                ctx.case({'forgery': gname, 'victim': victim, 'configured': cred, 'established': bool(est)}, nontrivial=True)
+                ctx.count(f'forgery:{gname}')
+                if est or newsa:
+                    fails.append(Failure('property', 'auth:accepted-bad-credential',
+                                         f'{"responder" if victim == "B" else "initiator"} configured for {cred} accepted the '
+                                         f'guess "{gname}" from a peer that holds no credential: established={bool(est)}, '
+                                         f'IPsec SAs installed={newsa}',
+                                         {'kind': 'forgery', 'seed': seed, 'victim': victim, 'configured': cred, 'guess': gname}))
+    return fails
+
+
 def preauth(ctx, seed):
     """A peer that completed IKE_SA_INIT (so keys exist) but never authenticates: whatever exchange it sends instead
     of IKE_AUTH, nothing may be installed and the IKE_SA must not become established - on either role."""
@@ -527,6 +583,7 @@ def oracle(ctx, deep):
         fails += recompute_auth(ctx, ctx.rng.getrandbits(32), prf_name, False)
     fails += recompute_auth(ctx, ctx.rng.getrandbits(32), 'sha256', True)
     fails += credentials(ctx, ctx.rng.getrandbits(32))
+    fails += forgeries(ctx, ctx.rng.getrandbits(32))
     for _ in range(1 if not deep else 6):
         fails += mitm(ctx, ctx.rng.getrandbits(32), deep)
         if fails:
@@ -539,6 +596,8 @@ def replay(ctx, obj):
         return recompute_auth(ctx, obj['seed'], obj['recompute'], obj['rsa'])
     if 'situation' in obj:
         return [f for f in credentials(ctx, obj['seed']) if f.replay.get('situation') == obj['situation']]
+    if obj.get('kind') == 'forgery':
+        return [f for f in forgeries(ctx, obj['seed']) if f.replay.get('guess') == obj.get('guess')]
     if 'preauth' in obj:
         return [f for f in preauth(ctx, obj['seed']) if f.replay.get('preauth') == obj['preauth']]
     if 'mitm' in obj:
